@@ -124,6 +124,83 @@ def own_nodes(fnode, include_lambdas=True):
             stack.append(c)
 
 
+_COMPLEMENT = {ast.Is: ast.IsNot, ast.IsNot: ast.Is, ast.Eq: ast.NotEq, ast.NotEq: ast.Eq,
+               ast.In: ast.NotIn, ast.NotIn: ast.In}
+_MIRROR = {ast.Lt: ast.Gt, ast.Gt: ast.Lt, ast.LtE: ast.GtE, ast.GtE: ast.LtE}
+_INERT_CALLS = {"print", "logging.debug", "logging.info", "logging.warning", "warnings.warn", "logger.debug",
+                "logger.info", "logger.warning", "sys.stdout.write", "sys.stdout.flush", "sys.stderr.write"}
+
+
+def _pure_arg(e):
+    """Argument expressions whose evaluation has no effect on anything the rules look at."""
+    for n in ast.walk(e):
+        if isinstance(n, ast.Call):
+            f = attr_chain(n.func) or ""
+            if f not in ("str", "len", "repr", "format", "int", "float", "round", "type") and not f.endswith(".format"):
+                return False
+        if isinstance(n, (ast.NamedExpr, ast.Yield, ast.YieldFrom, ast.Await)):
+            return False
+    return True
+
+
+def _inert(st):
+    if isinstance(st, ast.Pass):
+        return True
+    if isinstance(st, ast.Expr) and isinstance(st.value, ast.Call):
+        f = attr_chain(st.value.func) or ""
+        if f in _INERT_CALLS and all(_pure_arg(a) for a in st.value.args) and all(_pure_arg(k.value) for k in st.value.keywords):
+            return True
+    return False
+
+
+class _Normaliser(ast.NodeTransformer):
+    """Spelling normalisation applied to every module before analysis (semantics preserving for everything the rules
+    read): inert statements (print/logging/pass next to other statements) are dropped; `not (a is b)` becomes
+    `a is not b` (likewise ==/!=, in/not in); a numeric constant or `tmax` on the LEFT of an ordering comparison is
+    moved to the right (`tmax > t` -> `t < tmax`, `0 < r` -> `r > 0`)."""
+
+    def _clean(self, body):
+        out = [s for s in body if not _inert(s)]
+        return out or [ast.Pass()]
+
+    def generic_visit(self, node):
+        super().generic_visit(node)
+        for fld in ("body", "orelse", "finalbody"):
+            b = getattr(node, fld, None)
+            if isinstance(b, list) and b and isinstance(b[0], ast.stmt):
+                cleaned = [s for s in b if not _inert(s)]
+                if fld == "body" and not cleaned:
+                    cleaned = [ast.copy_location(ast.Pass(), b[0])]
+                setattr(node, fld, cleaned)
+        return node
+
+    def visit_UnaryOp(self, node):
+        self.generic_visit(node)
+        if isinstance(node.op, ast.Not) and isinstance(node.operand, ast.Compare) and len(node.operand.ops) == 1 \
+                and type(node.operand.ops[0]) in _COMPLEMENT:
+            c = node.operand
+            return ast.copy_location(ast.Compare(left=c.left, ops=[_COMPLEMENT[type(c.ops[0])]()], comparators=c.comparators), node)
+        return node
+
+    def visit_Compare(self, node):
+        self.generic_visit(node)
+        if len(node.ops) == 1 and type(node.ops[0]) in _MIRROR:
+            l, r = node.left, node.comparators[0]
+            lnum = isinstance(l, ast.Constant) and isinstance(l.value, (int, float)) and not isinstance(l.value, bool)
+            rnum = isinstance(r, ast.Constant) and isinstance(r.value, (int, float)) and not isinstance(r.value, bool)
+            ltmax = (attr_chain(l) or "").split(".")[-1] == "tmax"
+            rtmax = (attr_chain(r) or "").split(".")[-1] == "tmax"
+            if (lnum and not rnum) or (ltmax and not rtmax and not rnum):
+                return ast.copy_location(ast.Compare(left=r, ops=[_MIRROR[type(node.ops[0])]()], comparators=[l]), node)
+        return node
+
+
+def normalise(tree):
+    tree = _Normaliser().visit(tree)
+    ast.fix_missing_locations(tree)
+    return tree
+
+
 class Repo:
     def __init__(self, root=None):
         self.root = root or REPO
@@ -149,6 +226,7 @@ class Repo:
                     tree = ast.parse(text, filename=path)
                 except SyntaxError as e:
                     raise AnalysisError("cannot parse %s: %s" % (path, e))
+            tree = normalise(tree)
             self.mods[m] = tree
             self.src[m] = text.split("\n")
             self._index(tree, m)
